@@ -9,24 +9,34 @@ use crate::probe::compile_src;
 /// names that one of the exporters has to change (reserved in HLSL or in Metal, ordinary identifiers in RSSL)
 pub const RENAMED: &[&str] = &["vector", "matrix", "fragment", "device", "constant", "thread", "kernel", "vertex"];
 
-thread_local! { static RENAME_STYLE: std::cell::Cell<bool> = std::cell::Cell::new(false); }
+thread_local! { static RENAME_STYLE: std::cell::Cell<bool> = std::cell::Cell::new(false); static NS_STYLE: std::cell::Cell<bool> = std::cell::Cell::new(false); }
+
+/// in the namespace style (entry written `<name>+N`) every resource with an odd index lives in `namespace NS` under
+/// the name of its even neighbour: two bound declarations with one leaf name
+fn in_ns(i: usize, d: &Decl) -> bool { NS_STYLE.with(|c| c.get()) && i % 2 == 1 && d.kind.starts_with("o:") && IS_OBJ.with(|v| v.borrow().get(i - 1).copied().unwrap_or(false)) }
+thread_local! { static IS_OBJ: std::cell::RefCell<Vec<bool>> = std::cell::RefCell::new(Vec::new()); }
 
 /// the name of global i: g<i>, or - in the renaming style (entry written `<name>+R`) - a reserved word for resources
 fn gname(i: usize, d: &Decl) -> String {
-    if RENAME_STYLE.with(|c| c.get()) && i < RENAMED.len() && d.kind.starts_with("o:") { RENAMED[i].to_string() } else { format!("g{}", i) }
+    if RENAME_STYLE.with(|c| c.get()) && i < RENAMED.len() && d.kind.starts_with("o:") { RENAMED[i].to_string() }
+    else if in_ns(i, d) { format!("g{}", i - 1) }
+    else { format!("g{}", i) }
 }
 
 fn use_stmt(i: usize, d: &Decl) -> String {
     match d.kind.as_str() {
         "c" => format!("m{};", i),
-        _ if d.arr.is_some() => format!("{}[0];", gname(i, d)),
-        _ => format!("{};", gname(i, d)),
+        _ if d.arr.is_some() => format!("{}{}[0];", if in_ns(i, d) { "NS::" } else { "" }, gname(i, d)),
+        _ => format!("{}{};", if in_ns(i, d) { "NS::" } else { "" }, gname(i, d)),
     }
 }
 
 pub fn render(decls: &[Decl], dflt: u32, entry: &str, tg: (u32, u32, u32), uses: &[usize], helper_uses: &[usize], second_pipeline: bool) -> String {
     let (entry, style) = match entry.strip_suffix("+R") { Some(e) => (e, true), None => (entry, false) };
     RENAME_STYLE.with(|c| c.set(style));
+    let (entry, ns_style) = match entry.strip_suffix("+N") { Some(e) => (e, true), None => (entry, false) };
+    NS_STYLE.with(|c| c.set(ns_style));
+    IS_OBJ.with(|v| *v.borrow_mut() = decls.iter().map(|d| d.kind.starts_with("o:")).collect());
     let mut s = String::from("struct S0 { uint m; };\n");
     for (i, d) in decls.iter().enumerate() {
         // length 0 stands for an unbounded array `[]`
@@ -43,7 +53,10 @@ pub fn render(decls: &[Decl], dflt: u32, entry: &str, tg: (u32, u32, u32), uses:
                 let ty = OBJ_KINDS.iter().find(|(n, _)| *n == name).map(|(_, t)| *t).unwrap_or(name);
                 let init = if d.ss { " = StaticSampler { Filter = MIN_MAG_MIP_LINEAR; }" } else { "" };
                 let bindless = if d.arr.map(|n| n >= 16 || n == 0).unwrap_or(false) { "[[rssl::bindless]] " } else { "" };
-                s += &format!("{}{}{}{} {}{}{};\n", bindless, attr, storage, ty, gname(i, d), arr, init);
+                if in_ns(i, d) { s += "namespace NS { "; }
+                s += &format!("{}{}{}{} {}{}{};", bindless, attr, storage, ty, gname(i, d), arr, init);
+                if in_ns(i, d) { s += " }"; }
+                s += "\n";
             }
         }
     }
@@ -142,7 +155,7 @@ pub fn gen_cases(seed: u64, n: usize, _thorough: bool) -> Vec<String> {
         let u = pick(&mut rng);
         let h = pick(&mut rng);
         let mode = ["all", "name", "nopipe", "one"][rng.below(4) as usize];
-        let entry: String = if rng.chance(1, 8) { "CSMAIN+R".to_string() } else { (if rng.chance(1, 4) { "VSPS" } else if rng.chance(1, 6) { *rng.pick(&["TASKMESH", "MESH"]) } else if rng.chance(1, 3) { *rng.pick(&entries) } else { "CSMAIN" }).to_string() };
+        let entry: String = if rng.chance(1, 8) { "CSMAIN+R".to_string() } else if rng.chance(1, 12) { "CSMAIN+N".to_string() } else { (if rng.chance(1, 4) { "VSPS" } else if rng.chance(1, 6) { *rng.pick(&["TASKMESH", "MESH"]) } else if rng.chance(1, 3) { *rng.pick(&entries) } else { "CSMAIN" }).to_string() };
         let tg = (rng.range(1, 8), rng.range(1, 4), rng.range(1, 2));
         let ds: Vec<String> = decls.iter().map(|d| d.word()).collect();
         out.push(format!("{} {} {} {} {} {} {} U{} H{} {}", target, rng.below(3), mode, entry, tg.0, tg.1, tg.2, u, h, ds.join(" ")).trim_end().to_string());
